@@ -828,8 +828,9 @@ theorem penalty_satisfaction_vector (reduction : List (Pair × Label)) (resp : S
       (`keep_penalty_variables`) or its columns for `order`, the polynomial's energy of the row, the
       `penalty_satisfaction` flag, and the child's other fields (`num_occurrences`, …) unchanged;
     * its variables are the child's (`keep_penalty_variables`) or `order`;
-    * its fields are `sample, energy, penalty_satisfaction` followed by the child's other fields; the vartype is the
-      child's; `info` is the child's with `reduction` and `penalty_strength` set;
+    * its fields are `Generated.HocLayout.headFields` (`sample, energy, penalty_satisfaction`, regenerated from the source on
+      every run) followed by the child's other fields; the vartype is the child's; `info` is the child's with the keys
+      `Generated.HocLayout.reductionKey` and `…strengthKey` set;
     * the dtype of `penalty_satisfaction` is `bool` with `discard_unsatisfied`, `int64` without — and `float64` in the
       two corner cases in which the code builds the column from an empty Python list. -/
 theorem polymorph_response_record (poly : List (LTerm × Rat)) (order : List Label) (reduction : List (Pair × Label))
@@ -838,7 +839,7 @@ theorem polymorph_response_record (poly : List (LTerm × Rat)) (order : List Lab
     out.rows = (resp.rows.filter (fun r => !discard || penaltySatisfied reduction (rowFn resp.vars r.sample))).map
                  (outRowOf poly order reduction keep discard resp.vars)
     ∧ out.vars = (if keep then resp.vars else order)
-    ∧ out.fields = ["sample", "energy", "penalty_satisfaction"] ++ resp.names
+    ∧ out.fields = Generated.HocLayout.headFields ++ resp.names
     ∧ out.vt = resp.vt
     ∧ out.info = outInfo reduction strength resp.info
     ∧ out.satDtype = (if discard then
@@ -923,13 +924,13 @@ theorem polymorph_response_columns (poly : List (LTerm × Rat)) (order : List La
 
 /-- **when `polymorph_response` raises** (`ValueError` of `variables.index`, `KeyError` inside `poly.energies`,
     `ValueError` of the record dtype): iff a label of the reduction or a variable of the polynomial is not a variable of
-    the child's response, or the child's record already has a `penalty_satisfaction` field -/
+    the child's response, or the child's record already has a field named like one of the leading fields (`penalty_satisfaction`) -/
 theorem polymorph_response_raises_iff (poly : List (LTerm × Rat)) (order : List Label) (horder : ∀ v ∈ order, v ∈ polyVars poly)
     (reduction : List (Pair × Label)) (strength : Option Rat) (keep discard : Bool) (resp : SampleSetM) :
     (∃ e, polymorphRecord poly order reduction strength keep discard resp = .error e)
       ↔ ((∃ c ∈ reduction, c.1.1 ∉ resp.vars ∨ c.1.2 ∉ resp.vars ∨ c.2 ∉ resp.vars)
           ∨ (∃ v ∈ polyVars poly, v ∉ resp.vars)
-          ∨ "penalty_satisfaction" ∈ resp.names) :=
+          ∨ (∃ n ∈ resp.names, n ∈ Generated.HocLayout.headFields)) :=
   polymorphRecord_error_iff poly order horder reduction strength keep discard resp
 
 /-- **`HigherOrderComposite.sample_poly` returning the whole sample set** (`Red.samplePolyRecord`, any child): the child
